@@ -32,7 +32,7 @@ Definition obs := (N * N * list (list N))%type.
 
 Definition enc_ip (a : ip) : list N := match a with V4 x => [4; x] | V6 x => [6; x] end.
 Definition enc_pkt (p : pkt) : list N :=
-  [p_proto p] ++ enc_ip (p_src p) ++ [p_sport p] ++ enc_ip (p_dst p) ++ [p_dport p; p_flags p; p_id p].
+  [p_proto p] ++ enc_ip (p_src p) ++ [p_sport p] ++ enc_ip (p_dst p) ++ [p_dport p; N.land (p_flags p) 15; p_id p].
 
 Definition kern_at (n : net) (h : nat) : kern := nth h (n_hosts n) (kern0 []).
 Definition with_host (n : net) (h : nat) (k : kern) : net :=
@@ -75,7 +75,7 @@ Definition drain (k : kern) (i : N) (kind : hkind) (fd : N) : kern * list N :=
       | HStream =>
           match s_tcb s with
           | Some t => if t_reset t then (k, [i; 2])
-                      else (set_tcb k fd (fun t => mktcb (t_state t) (t_peer t) (t_reset t) []), [i; 1] ++ t_recv t)
+                      else (set_tcb k fd (fun t => mktcb (t_state t) (t_peer t) (t_reset t) [] (t_sync t)), [i; 1] ++ t_recv t)
           | None => (k, [i; 9])
           end
       | _ => (k, [i; 3])
